@@ -11,9 +11,11 @@ import (
 	"path/filepath"
 	"sort"
 	"strings"
+	"sync"
 	"time"
 
 	"github.com/tmpim/casket"
+	"github.com/tmpim/casket/caskethttp/httpserver"
 
 	"verif/sim"
 )
@@ -104,6 +106,7 @@ type reloadRig struct {
 	cbSeq    int
 	nsock    int
 	faults   bool
+	wild     bool // the site b.test is written *.b.test and asked for as x.b.test / y.b.test
 }
 
 var allHosts = []string{"a.test", "b.test", "c.test"}
@@ -119,6 +122,10 @@ func (r *reloadRig) siteAddr(h string, ver verSpec) (addr, bind string) {
 	}
 	if r.tls {
 		return "https://" + h + ":" + port, bind
+	}
+	if r.wild && h == "b.test" {
+		// written with a wildcard label: its clients name a host no site is literally called
+		return "http://*.b.test:" + port, bind
 	}
 	return "http://" + h + ":" + port, bind
 }
@@ -203,6 +210,8 @@ func runReload(c *sim.Ctl) {
 	r.two = st.Draw(5) == 4 && Applied("maporder") // listener order must be reproducible
 	r.faults = st.Draw(2) == 1
 	r.tls = st.Draw(4) == 0
+	r.wild = !r.tls && st.Draw(3) == 0
+	c.Params["wildcard_site"] = r.wild
 	c.Params["tls"] = r.tls
 	if st.Draw(4) == 0 {
 		dir, err := os.MkdirTemp("", "sim-reload-")
@@ -270,6 +279,27 @@ func runReload(c *sim.Ctl) {
 		}
 	}
 
+	if Applied("servestart") && st.Draw(4) == 0 && !r.tls {
+		// (plain HTTP only: a TLS server whose Serve begins after its Stop starts a session-ticket rotation
+		// that nobody ends any more - a goroutine left behind per such reload, noted in DESIGN 0.3)
+		// the goroutines that serve a new instance's listeners get going when the scheduler says
+		// so - possibly after the next reload has come and gone
+		c.Params["serve_goroutines_held"] = true
+		var smu sync.Mutex
+		seq := map[string]int{}
+		httpserver.VerifServeStart = func(addr string) {
+			if r.cleanup {
+				return
+			}
+			smu.Lock()
+			seq[addr]++
+			n := seq[addr]
+			smu.Unlock()
+			c.Probe("serve-goroutine-held-at-its-start")
+			c.Park(fmt.Sprintf("hook.serve-start/%s#%d", addr, n), "server:"+addr)
+		}
+		defer func() { httpserver.VerifServeStart = nil }()
+	}
 	c.AddSource(r.events)
 	c.AddInvariant(r.invariant)
 
@@ -407,6 +437,11 @@ func runReload(c *sim.Ctl) {
 		c.ReleaseAll()
 		r.cleanup = true
 	}
+	// serve goroutines of instances retired before they got going are let go now (their server
+	// has been stopped: they return at once)
+	r.cleanup = true
+	c.ReleasePrefix("hook.serve-start/")
+	c.Quiesce()
 	if n := len(casket.Instances()); n != 0 {
 		c.Violate("C07/instances-left", "", "%d instances remain after stop", n)
 	}
@@ -420,7 +455,11 @@ func (r *reloadRig) addClient(host string, park bool, notBefore int, battery boo
 	cl := &rclient{id: id, host: host, park: park, notBefore: notBefore, battery: battery, connStep: -1, tlsNeed: -1}
 	cl.closeHdr = st.Draw(2) == 0
 	cl.doAbort = !battery && r.faults && st.Draw(8) == 0
-	req := fmt.Sprintf("GET /p?id=c%d HTTP/1.1\r\nHost: %s\r\nX-Req: c%d\r\n", id, host, id)
+	wireHost := host
+	if r.wild && host == "b.test" {
+		wireHost = []string{"x.b.test", "y.b.test"}[id%2]
+	}
+	req := fmt.Sprintf("GET /p?id=c%d HTTP/1.1\r\nHost: %s\r\nX-Req: c%d\r\n", id, wireHost, id)
 	if park {
 		req += "X-Park: 1\r\n"
 	}
